@@ -33,6 +33,30 @@ pub fn extra_sibling(kind: u64) -> Option<(String, Vec<u8>)> {
     }
 }
 
+/// Extra entries in the scanned directory that no import reaches: (name, bytes, is_directory).
+/// 4: many files; 5: hidden .xsd; 6: upper-case .XSD; 7: empty .xsd; 8: a directory whose name ends in .xsd
+pub fn extra_entries(kind: u64) -> Vec<(String, Vec<u8>, bool)> {
+    const VALID: &[u8] = br#"<?xml version="1.0"?><xs:schema xmlns:xs="http://www.w3.org/2001/XMLSchema" xmlns:z="http://example.com/zz/extra" targetNamespace="http://example.com/zz/extra"><xs:complexType name="ExtraType"><xs:sequence><xs:element name="e" type="xs:string"/></xs:sequence></xs:complexType></xs:schema>"#;
+    match kind {
+        1..=3 => extra_sibling(kind).map(|(n, b)| vec![(n, b, false)]).unwrap_or_default(),
+        4 => {
+            let mut v = Vec::new();
+            for i in 0..24 {
+                v.push((format!("note{i:02}.txt"), format!("note {i}").into_bytes(), false));
+            }
+            for i in 0..16 {
+                v.push((format!("unused{i:02}.xsd"), VALID.to_vec(), false));
+            }
+            v
+        }
+        5 => vec![(".hidden.xsd".into(), VALID.to_vec(), false)],
+        6 => vec![("UPPER.XSD".into(), VALID.to_vec(), false)],
+        7 => vec![("empty.xsd".into(), Vec::new(), false)],
+        8 => vec![("folder.xsd".into(), Vec::new(), true)],
+        _ => vec![],
+    }
+}
+
 pub fn input_sets() -> Vec<InputSet> {
     let repo = crate::repo_root();
     let verif = crate::verif_root();
@@ -60,6 +84,10 @@ pub fn input_sets() -> Vec<InputSet> {
     let num = rd(&repo.join("resources/number_services/number_services.wsdl"));
     if let Some(n) = &num {
         v.push(InputSet { name: "number_services".into(), stage: None, files: vec![("number_services.wsdl".into(), n.clone())], start: "number_services.wsdl".into() });
+    }
+    if let Some(b) = rd(&repo.join("resources/broadband_forum/cwmp-1-2.xsd")) {
+        // a large output (> 64 KiB): buffer boundaries and multi-call writes
+        v.push(InputSet { name: "big-cwmp".into(), stage: None, files: vec![("cwmp-1-2.xsd".into(), b)], start: "cwmp-1-2.xsd".into() });
     }
     // failing inputs, one per stage
     if let Some(t) = &temp {
